@@ -4,6 +4,7 @@ C05 — bindings live exactly as long as one jaxtyped call or context block.
 import JaxVerif.Spec.Calls
 import JaxVerif.Generated.Skeleton
 import JaxVerif.Lemmas.Stack
+import JaxVerif.Source.Wrappers
 
 namespace JV
 
@@ -59,5 +60,33 @@ theorem C05_facts_matter :
     ((runProg sk { good with ctxExitPopsAlways := false } (.ctx [] .raiseExc) {}).1.stack.length = 1) ∧
     ((runProg sk { good with newBindBeforePush := false } (.call .newStyle [] none false false [] .ret) {}).1.stack.length = 1) := by
   decide
+
+/-- **the code that pushes and pops, as written today**: the bodies of the new-style wrapper (with its helper frame),
+    of the old-style / `typechecker=None` wrapper and of `_JaxtypingContext.__enter__` / `__exit__`, translated from
+    the current source on this run, ARE the `call` / `ctx` steps of the model with every structural fact true — for
+    every argument list (binding or not), every body, every verdict of the typechecker, every exit. `C05_balanced`,
+    `C05_call_exact` and `C05_ctx_exact` are therefore statements about the code the source contains. -/
+theorem C05_source_wrappers (sk : Skel) (ps : List Param) (ret : Option (LType × Obj)) (bindOk noTc rs nw : Bool)
+    (B : TState → TState × List Obs) (e : Exit) (st : TState) :
+    runWrapper ⟨sk, ps, ret, bindOk, noTc, B, e, rs, nw, none, .plain, Generated.newImplCode⟩ Generated.newWrapperCode st
+      = some (callStep sk goodWrap .newStyle ps ret bindOk noTc B e st) ∧
+    runWrapper ⟨sk, ps, ret, bindOk, noTc, B, e, rs, nw, none, .typechecked, .unknown⟩ Generated.oldWrapperCode st
+      = some (callStep sk goodWrap .oldStyle ps ret bindOk noTc B e st) ∧
+    runWrapper ⟨sk, ps, ret, bindOk, noTc, B, e, rs, nw, none, .plain, .unknown⟩ Generated.oldWrapperCode st
+      = some (callStep sk goodWrap .noChecker ps ret bindOk noTc B e st) ∧
+    runCtx Generated.ctxEnterCode Generated.ctxExitCode none B e st = some (ctxStep goodWrap B e st) :=
+  ⟨source_new_wrapper .., source_old_wrapper .., source_nochecker_wrapper .., source_context ..⟩
+
+/-- **popped whatever the message code does**: the statements that only build message text call user code
+    (`__repr__`, the `__setattr__` behind `add_note`); whether or not the first of them raises, and whatever it
+    raises, the thread state each wrapper leaves behind is the model's — the frame pushed for the call is gone. -/
+theorem C05_source_pop_whatever (mf : Option Exc) (k : FnKind) (sk : Skel) (ps : List Param) (ret : Option (LType × Obj))
+    (bindOk noTc rs nw : Bool) (B : TState → TState × List Obs) (e : Exit) (st : TState) :
+    (runWrapper ⟨sk, ps, ret, bindOk, noTc, B, e, rs, nw, mf, .plain, Generated.newImplCode⟩ Generated.newWrapperCode st).map Prod.fst
+      = some (callStep sk goodWrap .newStyle ps ret bindOk noTc B e st).1 ∧
+    (runWrapper ⟨sk, ps, ret, bindOk, noTc, B, e, rs, nw, mf, k, .unknown⟩ Generated.oldWrapperCode st).map Prod.fst
+      = some (callStep sk goodWrap (match k with | .plain => .noChecker | .typechecked => .oldStyle) ps ret bindOk noTc B e st).1 ∧
+    (runCtx Generated.ctxEnterCode Generated.ctxExitCode mf B e st).map Prod.fst = some (ctxStep goodWrap B e st).1 :=
+  ⟨source_new_wrapper_faults .., source_old_wrapper_faults .., source_context_faults ..⟩
 
 end JV
